@@ -130,5 +130,17 @@ claim(
     "sub-modules are loaded for every layout except in-package stubs; no alias error escapes. Field-by-field outcomes on generated pairs are not decided.",
     TB,
 )
+claim(
+    "C12",
+    "difference-bound dataflow on the statement CFG (loop-cursor progress with interprocedural reader summaries; list-index slack with "
+    "branch facts, short-circuit facts and caller-established preconditions), handler-coverage rules for catalogued partial operations, "
+    "dispatch-table totality, effect analysis (purity), regex-AST lint for ambiguous nested unbounded repeats",
+    "Decided for every loop and every path of the three parsers: each while loop strictly advances its cursor (so it terminates on any text); "
+    "every `lines[x + c]` is in range; annotation-element, docstring.parent, section-value, split-unpack and compile() sites are guarded for the "
+    "exceptions they can raise; every section kind and parser has a handler; nothing rooted at the docstring is mutated; no pattern can "
+    "backtrack exponentially. That plain text comes back as a single text section is not decided.",
+    TB + "; the data invariant 'last docstring line is not blank' (checked at Docstring.__init__) is used for the skip-blank loops; the "
+    "partial-operation catalogue is the one listed in the rule, not every possible Python exception",
+)
 for _p in [f"C{n:02d}" for n in range(1, 20) if f"C{n:02d}" not in CLAIMED]:
     NOT_YET[_p] = "check under construction in this round (static rules designed in DESIGN.md section 3; not yet registered)"
